@@ -627,6 +627,10 @@ class Consumer(object):
         if self._stopping and failure.check(CancelledError):
             # Not really an error
             return
+        if self._shuttingdown:
+            # shutdown() fetches nothing more (and its attempt limit is
+            # meant for the final commit): there is nothing to retry or fail.
+            return
         # Do we need to abort?
         if self.request_retry_max_attempts != 0 and self._fetch_attempt_count >= self.request_retry_max_attempts:
             log.debug(
@@ -848,6 +852,10 @@ class Consumer(object):
 
         if self._stopping and failure.check(CancelledError):
             # Not really an error
+            return
+        if self._shuttingdown:
+            # shutdown() fetches nothing more (and its attempt limit is
+            # meant for the final commit): there is nothing to retry or fail.
             return
         # Do we need to abort?
         if self.request_retry_max_attempts != 0 and self._fetch_attempt_count >= self.request_retry_max_attempts:
